@@ -1,5 +1,5 @@
 """C04 - load, save, load loses nothing; a second save changes nothing (structural clauses)."""
-from ..rules import readers, serial, writers, census, baseline
+from ..rules import readers, serial, writers, census, baseline, entry
 
 EXPLANATION = (
     "Static rule checking of 'whenever a text loads it can be serialized' and of the idempotence of the normalisers: R-NULL "
@@ -38,6 +38,7 @@ def c3(ctx):
 
 def c4(ctx):
     census.mechanism_census(ctx, ["serialize", "__str__", "items", "keys", "values", "__iter__", "__getitem__", "get", "__init__", "_parse", "__setitem__", "update", "setdefault", "move_to_end", "__eq__", "__ne__", "from_str", "from_msd", "_from_msd", "__delitem__", "pop", "popitem", "clear"], "load / save")
+    entry.constructor_funnel(ctx)
 
 def c_api(ctx):
     baseline.surface(ctx, "C04: documented surface", modules=['simfile.sm', 'simfile.ssc', 'simfile.base', 'simfile._private.serializable'], functions=['simfile:load', 'simfile:loads'])
